@@ -213,7 +213,7 @@ func (s *OpenAPI3Exporter) exportType(t *syslwrapper.Type) *openapi3.SchemaRef {
 	case "list", "set":
 		value = openapi3.NewArraySchema()
 		value.Items = s.exportType(t.Items[0])
-	case "tuple":
+	case "tuple", "relation":
 		var required []string
 		value = openapi3.NewObjectSchema()
 		for k, v := range t.Properties {
